@@ -834,6 +834,17 @@ class Synth:
         c = self.pick(self.v.stmts)
         if not c:
             return None
+        allocs = self.allocs()
+        if allocs and self.rng.random() < 0.4:
+            # a block that starts at an allocation and runs to the end of its scope: the copies then own
+            # their storage, which later rewrites of one copy have to judge under that copy's condition
+            c = self.pick(allocs)
+            cond = self._cond_str(c[0])
+            if not cond:
+                return None
+            blk = self.v.parent_block[c[0]]
+            conds = [cond] + ([self._cond_str(c[0])] if self.rng.random() < 0.4 else [])
+            return [D_block(c[0], len(blk) - c[0][-1][1]), L([x for x in conds if x])]
         cond = self._cond_str(c[0])
         if not cond:
             return None
